@@ -239,10 +239,11 @@ class Run:
         _WORK = work
         ctx = mp.get_context("fork")
         total = 0
-        t_end = time.time() + self.explore_budget_s
+        par_budget = 3 * self.explore_budget_s          # here the workers also discharge their obligations
+        t_end = time.time() + par_budget
         while frontier:
             if time.time() > t_end:
-                self.engine_failures.append((label, f"Undecided: exploration time budget exceeded ({self.explore_budget_s}s)"))
+                self.engine_failures.append((label, f"Undecided: exploration time budget exceeded ({par_budget}s)"))
                 break
             # level-synchronous breadth-first exploration: every path of the current frontier in parallel
             if len(frontier) < 3:
